@@ -26,6 +26,7 @@ SlotOf(slot, def, i) == IF i \in DOMAIN slot THEN slot[i] ELSE Untouched(def)
 PredHolds(pred, cur) ==
   CASE pred.k = "always" -> TRUE
     [] pred.k = "never"  -> FALSE
+    [] pred.k = "panic"  -> FALSE      \* a predicate that unwinds has not answered "true"
     [] pred.k = "eq"     -> Key(cur) = pred.x
     [] pred.k = "lt"     -> Key(cur) < pred.x
     [] pred.k = "ge"     -> Key(cur) >= pred.x
